@@ -312,8 +312,19 @@ def ternary_guard_checks(ctx):
                   f"stmt={lab(g.fields['stmt'])}, effect_ops[0]={lab(g.fields['effect_ops'][0])}", fn_where(idx, fu), nontrivial=False)
 
 
+def _prefix_once(ctx):
+    # shared with C08 (R08.5 calls r06_6 as well): run the per-routine prefix clause once per rule context
+    if getattr(ctx, "_prefix_done", False):
+        return
+    ctx._prefix_done = True
+    from .c08 import routine_prefix_checks
+
+    routine_prefix_checks(ctx)
+
+
 @rule("R06.6", "C06", "temporaries: h_tmpN generated from a counter that is incremented on every name and never decremented or reset during a behaviour", min_instances=2)
 def r06_6(ctx):
+    _prefix_once(ctx)
     idx = get_index(ctx.env)
     writers = []
     for fi in idx.funcs.values():
